@@ -656,6 +656,25 @@ def s2_macro_inst(rep):
             if c.callee == "parsenum_unsigned":
                 rep.check(norm(c.arg(3)) == x, "S2-macro", "%s: parsenum_unsigned is given *x (set to -1) as the type limit" % name, c.where,
                           "type limit %s" % show(norm(c.arg(3))), function=name, construct="typemax")
+        # the forms that take no bounds impose none: every value of the target's type is in range
+        if name.endswith("nobounds") or name == "inst_plain2":
+            INF = ("__builtin_inf", "__builtin_inff", "__builtin_infl", "__builtin_huge_val", "__builtin_huge_valf")
+            def is_inf(t, neg):
+                while t[0] == "cast":
+                    t = t[-1]
+                if neg:
+                    return t[0] == "u-" and is_inf(t[1], False)
+                return t[0] == "call" and t[1] in INF
+            for c in convs:
+                lo, hi = norm(c.arg(1)), norm(c.arg(2))
+                if c.callee == "parsenum_float":
+                    okb = is_inf(lo, True) and is_inf(hi, False)
+                elif c.callee == "parsenum_signed":
+                    okb = lo == ("c", -(2 ** 63)) and hi == ("c", 2 ** 63 - 1)
+                else:
+                    okb = lo == Z and hi == x
+                rep.check(okb, "S2-macro", "%s: without bounds, %s is given the widest range there is" % (name, c.callee), c.where,
+                          "bounds %s .. %s" % (show(lo), show(hi)), function=name, construct="nobounds")
         # stores to errno after the conversions
         late = [e for e in f.all_elems() if e.is_assign and norm(e.kid(0)) == ERRNO and e not in clears]
         for e in late:
